@@ -6,6 +6,9 @@ ALL = ["C%02d" % i for i in range(1, 21)]
 
 # property -> (technique, decided clauses (short), not decided / assumptions)
 CLAIMED = {
+ "C10": ("guarded-insert (value identity + dominance + no-return), field access sets per namespace, return-shape analysis (go/ssa)",
+         "C10.1 table insert guarded by the lookup of the same handler's name in the same pass; conflict edge is fatal; C10.2 CALL/PUSH separation end to end (reg table choice, registration entries with their makers, getCall/getPush access sets, session wiring, bindCall/bindPush); C10.3 exact-match / unknown / not-found return shape; C10.4 returned names are the inserted keys",
+         "the (prefix, identifier) -> name mapping table and its determinism (value-level: only executing the mapper could compare it with the documented table); reflection-based signature checks of the makers"),
  "C09": ("sibling-shape comparison of the 23 stage functions, frozen who-may-call tables, stage-order reachability, veto-edge path search, expression normalisation of the container layout (go/ssa)",
          "C09.1 every stage function: ascending range, one assertion to its own interface, one call on the ok edge, first failure stops and is returned; C09.2 refresh = left++middle++right, appendLeft/Right sides, derived container shares left/right, own middle, refresh chained transitively; C09.3 derived lists own their storage; C09.4 each stage called exactly from its frozen callers, once, in stage order, post-write only after success; C09.5 veto edges reach no later stage/handler/write and the vetoing status is kept; C09.6 container selection (global first, handler's container before body stages); C09.7 handler only on OK edges",
          "plugin programs themselves; PostNewPeer/PostReg/PostListen fatal paths; ordering between different sessions"),
